@@ -1,6 +1,6 @@
 (* C20 — glue evaluated by generated case files: verdict = (model = impl?) + 2*(checker rejects impl) *)
 From EsVerif.Common Require Import Base.
-From EsVerif.C20 Require Import Model Model2 Spec.
+From EsVerif.C20 Require Import Model Model2 Spec Proofs Proofs2 Meter.
 
 Definition zz_eqb := list_eqb zpair_eqb.
 
@@ -185,3 +185,17 @@ Definition v_hist (v : Z) (same_as_alone : bool) : Z :=
   if same_as_alone then v else if Z.odd v then v else v + 1.
 (* an exhausted generator object iterated again yields nothing and ends normally *)
 Definition v_exhausted (out : list (Z * Z) * option err) : Z := verdict (pout_eqb ([], None) out) true.
+
+(* ================================================================== format_meter raising, StatusPrinter *)
+(* raised: 0 = returned, 1 = ZeroDivisionError, 2 = another exception *)
+Definition v_meter_raises (n : Z) (total : option Z) (el : sgn) (raised : Z) : Z :=
+  verdict (if format_meter_raises n total el then raised =? 1 else raised =? 0) true.
+
+Fixpoint status_texts (last : Z) (ss : list (list Z)) : list (list Z) :=
+  match ss with
+  | [] => []
+  | s :: t => let '(text, l') := print_status 32 last s in text :: status_texts l' t
+  end.
+(* written = the pieces of the output between carriage returns, as character codes *)
+Definition v_status (ss written : list (list Z)) : Z :=
+  verdict (list_eqb zlist_eqb (status_texts 0 ss) written) true.
